@@ -14,6 +14,7 @@ CONSTANTS
   MaxTxs = 1
   AllowEvidence = TRUE
   AllowAbsent = FALSE
+  AllowRestart = FALSE
   AllowNoProposer = FALSE
   KnownD8 = TRUE
 INVARIANT NoViolation
